@@ -10,6 +10,7 @@ import (
 	"bytes"
 	"context"
 	"crypto/x509"
+	"crypto/x509/pkix"
 	"errors"
 	"fmt"
 	"github.com/opencontainers/go-digest"
@@ -142,6 +143,28 @@ func main() {
 		}
 		sets = append(sets, s)
 	}
+	// the same chains of 2 and 3 with a leaf whose subject name is EMPTY (identified by other means; trusted identity "*")
+	setsNoSubject := map[int]signed{}
+	for n := 2; n <= 3; n++ {
+		cur := lib.Mint(nil, lib.CertSpec{CN: "c05-ns-root", Kind: "ca", KeyIdx: 7, PathLen: 3})
+		for k := 0; k < n-2; k++ {
+			cur = lib.Mint(cur, lib.CertSpec{CN: fmt.Sprintf("c05-ns-int%d", k), Kind: "ca", KeyIdx: 6 - k, PathLen: 2 - k})
+		}
+		leaf := lib.Mint(cur, lib.CertSpec{Subject: &pkix.Name{}, Kind: "codesign", NotBefore: time.Now().Add(-500 * 24 * time.Hour), NotAfter: time.Now().Add(500 * 24 * time.Hour)})
+		s := signed{chain: leaf.Chain(), raw: map[string][]byte{}}
+		if len(s.chain) != n || s.chain[0].Subject.String() != "" {
+			panic("chain with an empty-subject leaf")
+		}
+		for _, f := range formats {
+			for _, sc := range schemes {
+				s.raw[f+"|"+sc] = lib.MustCoreSign(lib.SignSpec{Format: f, Scheme: signature.SigningScheme(sc), Payload: payload, Signer: leaf, SigningTime: signTime})
+				s.raw[f+"|"+sc+"|blob"] = lib.MustCoreSign(lib.SignSpec{Format: f, Scheme: signature.SigningScheme(sc), Payload: lib.Payload(blobDesc), Signer: leaf, SigningTime: signTime})
+				s.raw[f+"|"+sc+"|plugin"] = lib.MustCoreSign(lib.SignSpec{Format: f, Scheme: signature.SigningScheme(sc), Payload: payload, Signer: leaf, SigningTime: signTime,
+					Ext: []signature.Attribute{{Key: lib.HdrPlugin, Critical: true, Value: "plug"}}})
+			}
+		}
+		setsNoSubject[n] = s
+	}
 
 	levels := []lib.LevelMap{{"enforce", "enforce", "enforce", "enforce"}, {"enforce", "enforce", "enforce", "log"}, {"enforce", "enforce", "enforce", "skip"}}
 	if r.Thorough() {
@@ -186,6 +209,10 @@ func main() {
 	lib.Parallel(len(cfgs), 16, func(i int) {
 		c := cfgs[i]
 		set := sets[c.ChainLen-1]
+		if ns, ok := setsNoSubject[c.ChainLen]; ok && i%3 == 1 {
+			set = ns
+			r.Event("chains-whose-leaf-has-an-empty-subject")
+		}
 		sig := set.raw[c.Format+"|"+c.Scheme]
 		// every fourth case: the signature names a plugin that owns ONLY trusted-identity verification, so native
 		// revocation checking must be performed exactly as without a plugin
@@ -214,6 +241,16 @@ func main() {
 			opts.RevocationClient = legacy{rv}
 		} else {
 			opts.RevocationCodeSigningValidator = rv
+			if i%5 == 4 {
+				// a caller half-way through the migration still fills the deprecated field too (with a client that finds
+				// nothing wrong): the context-aware validator it supplied is the one to consult
+				allOK := &vecRev{vec: make([]result.Result, c.ChainLen)}
+				for k := range allOK.vec {
+					allOK.vec[k] = result.ResultOK
+				}
+				opts.RevocationClient = legacy{allOK}
+				r.Event("both-interfaces-supplied")
+			}
 		}
 		if tiPlugin {
 			opts.PluginManager = lib.ScriptedManager{P: &lib.ScriptedPlugin{Caps: []pf.Capability{pf.CapabilityTrustedIdentityVerifier}}}
